@@ -318,8 +318,7 @@ Section Conc.
         let x := lookup id (s_cold s) in
         Some (s, k (option_map c_meta x), [LObs id x], cs LkStore MRead)
     | ColdBulk ids k =>
-        let xs := map (fun id => lookup id (s_cold s)) ids in
-        Some (s, k (map (option_map (fun r => (c_vec r, c_meta r))) xs),
+        Some (s, k (map (fun id => option_map (fun r => (c_vec r, c_meta r)) (lookup id (s_cold s))) ids),
               map (fun id => LObs id (lookup id (s_cold s))) ids, cs LkStore MRead)
     | ColdIns id v m k =>
         let r := new_rec s id v m in
@@ -380,37 +379,39 @@ Section Conc.
   (* thread t performs the next action of its current call; an idle thread first takes its next call
      (invocation event) and performs that call's first action in the same step; the step whose
      continuation is `Ret r` is the response *)
+  (* the call taken up by a scheduled thread: its current one, or (idle thread) the next of its list *)
+  Definition start (ts : tstate) (t now : nat) : option (cur * list call * nat * list hevent) :=
+    match t_cur ts with
+    | Some c => Some (c, t_todo ts, t_next ts, [])
+    | None =>
+        match t_todo ts with
+        | [] => None
+        | cl :: rest =>
+            Some (mkCur (t_next ts) cl now [] (prog_of cl), rest, S (t_next ts), [HInv t (t_next ts) cl now])
+        end
+    end.
+  (* after the action: response if the rest of the call is `Ret r` *)
+  Definition finish (t now : nat) (c : cur) (facts : list lentry) (p1 : prog) : option cur * list hevent :=
+    match p1 with
+    | Ret r => (None, [HRes t (c_idx c) (c_call c) r (c_inv c) now])
+    | _ => (Some (mkCur (c_idx c) (c_call c) (c_inv c) facts p1), [])
+    end.
+
   Definition run_thread (g : gstate) (t : nat) : option gstate :=
     match nth_error (g_thr g) t with
     | None => None
     | Some ts =>
         let now := g_now g in
-        let started : option (cur * list call * nat * list hevent) :=
-          match t_cur ts with
-          | Some c => Some (c, t_todo ts, t_next ts, [])
-          | None =>
-              match t_todo ts with
-              | [] => None
-              | cl :: rest =>
-                  Some (mkCur (t_next ts) cl now [] (prog_of cl), rest, S (t_next ts),
-                        [HInv t (t_next ts) cl now])
-              end
-          end in
-        match started with
+        match start ts t now with
         | None => None
         | Some (c, todo, next, hinv) =>
             match step_prog (g_sh g) (c_prog c) with
             | None => None
             | Some (sh1, p1, ops, _) =>
                 let ents := stamp now ops in
-                let facts := ents ++ c_facts c in
-                let '(cur1, hres) :=
-                  match p1 with
-                  | Ret r => (None, [HRes t (c_idx c) (c_call c) r (c_inv c) now])
-                  | _ => (Some (mkCur (c_idx c) (c_call c) (c_inv c) facts p1), [])
-                  end in
-                Some (mkG sh1 (S now) (upd_nth (g_thr g) t (mkT cur1 todo next))
-                          (hres ++ hinv ++ g_hist g) (ents ++ g_log g))
+                let fin := finish t now c (ents ++ c_facts c) p1 in
+                Some (mkG sh1 (S now) (upd_nth (g_thr g) t (mkT (fst fin) todo next))
+                          (snd fin ++ hinv ++ g_hist g) (ents ++ g_log g))
             end
         end
     end.
@@ -480,3 +481,100 @@ Definition pair_components (r : result) : list (N * (vec * meta)) :=
 
 (* sorted by stamp, oldest first *)
 Definition chron (log : list lentry) : list lentry := rev log.
+
+(* ================================================================================================ *)
+(* Executable checks used by the correspondence (cases files written by harness-locks/c05)          *)
+(* ================================================================================================ *)
+(* In cases files a digest is represented by the vector it is the digest of (the driver only plants
+   tokens made from vectors of its pool and decodes observed digests through that pool), i.e. the
+   model runs with the identity digest — injective, as the theorems assume. *)
+Definition dg_id (v : vec) : dgst := v.
+
+Definition opt_eqb {A} (e : A -> A -> bool) (a b : option A) : bool :=
+  match a, b with
+  | Some x, Some y => e x y
+  | None, None => true
+  | _, _ => false
+  end.
+Definition lent_eqb (a b : lent) : bool := vec_eqb (l_vec a) (l_vec b) && tok_eqb (l_tok a) (l_tok b).
+Definition hent_eqb (a b : hent) : bool :=
+  vec_eqb (h_vec a) (h_vec b) && meta_eqb (h_meta a) (h_meta b) && tok_eqb (h_tok a) (h_tok b).
+Definition crec_eqb (a b : crec) : bool :=
+  vec_eqb (c_vec a) (c_vec b) && meta_eqb (c_meta a) (c_meta b) && N.eqb (c_ver a) (c_ver b).
+Definition vm_eqb (a b : vec * meta) : bool := vec_eqb (fst a) (fst b) && meta_eqb (snd a) (snd b).
+Definition result_eqb (a b : result) : bool :=
+  match a, b with
+  | RVec i x, RVec j y => N.eqb i j && opt_eqb vec_eqb x y
+  | RDoc i x, RDoc j y => N.eqb i j && opt_eqb vm_eqb x y
+  | RBulk xs, RBulk ys => list_eqb (fun p q => N.eqb (fst p) (fst q) && opt_eqb vm_eqb (snd p) (snd q)) xs ys
+  | RIns x, RIns y => Bool.eqb x y
+  | RDel x, RDel y => Bool.eqb x y
+  | _, _ => false
+  end.
+Definition lcls_n (c : lcls) : N :=
+  match c with
+  | LkL1 => 0 | LkHot => 1 | LkStore => 2 | LkIndex => 3 | LkMetaIdx => 4 | LkGate => 5
+  | LkWal => 6 | LkSnap => 7 | LkInsCnt => 8 | LkQc => 9 | LkQcAux => 10
+  end%N.
+Definition lmode_n (m : lmode) : N := match m with MRead => 0 | MWrite => 1 | MUpgr => 2 | MMutex => 3 end%N.
+Definition linstr_eqb (a b : linstr) : bool :=
+  match a, b with
+  | LAcq c m, LAcq d n => N.eqb (lcls_n c) (lcls_n d) && N.eqb (lmode_n m) (lmode_n n)
+  | LUpg c, LUpg d => N.eqb (lcls_n c) (lcls_n d)
+  | LRel c, LRel d => N.eqb (lcls_n c) (lcls_n d)
+  | _, _ => false
+  end.
+
+(* observed entries of the three structures for the ids of a case *)
+Definition postobs := list (N * (option lent * option hent * option crec)).
+Definition post_ok (s : shared) (post : postobs) : bool :=
+  forallb (fun p => let '(a, b, c) := snd p in
+                    opt_eqb lent_eqb (lookup (fst p) (s_l1 s)) a &&
+                    opt_eqb hent_eqb (lookup (fst p) (s_hot s)) b &&
+                    opt_eqb crec_eqb (lookup (fst p) (s_cold s)) c) post.
+
+(* (i) a call run alone: (result agrees, post-state agrees, lock skeleton agrees) *)
+Definition skel_check (sh : shared) (c : call) (r : result) (post : postobs) (locks : list linstr)
+  : bool * bool * bool :=
+  match solo dg_id sh c with
+  | Some (s1, r1, l1) => (result_eqb r1 r, post_ok s1 post, list_eqb linstr_eqb l1 locks)
+  | None => (false, false, false)
+  end.
+
+(* (ii) directed schedules: phases (t, Some n) = thread t performs n atomic steps, (t, None) = thread t
+   runs until its current call has returned (at least one step) *)
+Fixpoint run_steps (g : gstate) (t n : nat) : option gstate :=
+  match n with
+  | O => Some g
+  | S m => match cstep dg_id g (Run t) with Some g1 => run_steps g1 t m | None => None end
+  end.
+Definition thread_idle (g : gstate) (t : nat) : bool :=
+  match nth_error (g_thr g) t with Some ts => is_none (t_cur ts) | None => true end.
+Fixpoint run_call (fuel : nat) (g : gstate) (t : nat) : option gstate :=
+  match fuel with
+  | O => None
+  | S f =>
+      match cstep dg_id g (Run t) with
+      | Some g1 => if thread_idle g1 t then Some g1 else run_call f g1 t
+      | None => None
+      end
+  end.
+Fixpoint run_phases (g : gstate) (ph : list (nat * option nat)) : option gstate :=
+  match ph with
+  | [] => Some g
+  | (t, Some n) :: r => match run_steps g t n with Some g1 => run_phases g1 r | None => None end
+  | (t, None) :: r => match run_call 400 g t with Some g1 => run_phases g1 r | None => None end
+  end.
+Definition results_of (g : gstate) : list (nat * nat * result) :=
+  flat_map (fun e => match e with HRes t c _ r _ _ => [(t, c, r)] | _ => [] end) (g_hist g).
+Definition phase_check (sh0 : shared) (threads : list (list call)) (ph : list (nat * option nat))
+           (expected : list (nat * nat * result)) (post : postobs) : bool * bool :=
+  match run_phases (ginit sh0 threads) ph with
+  | Some g =>
+      (forallb (fun e => existsb (fun x => Nat.eqb (fst (fst x)) (fst (fst e)) &&
+                                           Nat.eqb (snd (fst x)) (snd (fst e)) &&
+                                           result_eqb (snd x) (snd e)) (results_of g)) expected &&
+       Nat.eqb (length (results_of g)) (length expected),
+       post_ok (g_sh g) post)
+  | None => (false, false)
+  end.
